@@ -265,7 +265,8 @@ func (s *Session) checkContractHeader(c *Contract, fn *ssa.Function) error {
 	for i := 0; i < sig.Params().Len(); i++ {
 		n := sig.Params().At(i).Name()
 		if n != "" && n != "_" && !strings.HasPrefix(c.Params[i], "_p") && n != c.Params[i] {
-			return fmt.Errorf("contract %s: parameter %d is %q in header, %q in function", c.Key, i+1, c.Params[i], n)
+			// bound by position: a renamed parameter is not a stale contract
+			fmt.Printf("PARAM-RENAMED %s: parameter %d is %q in the contract header, %q in the function (bound by position)\n", c.Key, i+1, c.Params[i], n)
 		}
 	}
 	if sig.Results().Len() != len(c.Results) {
